@@ -15,13 +15,15 @@ RULE = ('universe: 2 node labels, 5 node objects (explicit ids u,v incl. two dif
 ASSUMPTIONS = ['id() uniqueness among live objects (implicit ids) is trusted; implicit ids are coded by pool position',
                'direct mutation of private attributes is outside the public API']
 
-NLS = [NodeLabel('A'), NodeLabel('B')]
+# the second node label is NAMED 'A,A': a type check that compares comma-joined label names instead of the labels cannot tell the type
+# (A, A) from the type ('A,A',)
+NLS = [NodeLabel('A'), NodeLabel('A,A')]
 NODES = [Node(NLS[0], 'u'), Node(NLS[1], 'u'), Node(NLS[0], 'v'), Node(NLS[0]), Node(NLS[1])]
 NODE_ID = ['e0', 'e0', 'e1', 'i0', 'i1']
 NODE_LAB = [0, 1, 0, 0, 1]
 # (name code, type as label indices, terminal)
-ELS = [(0, (0,), True), (0, (0, 0), True), (1, (0,), False), (2, (0, 1), True), (1, (), False), (3, (), True)]
-ELNAME = ['p', 'X', 'q', 'z', 'S', 'Y']
+ELS = [(0, (0,), True), (0, (0, 0), True), (1, (0,), False), (2, (0, 1), True), (1, (), False), (3, (), True), (4, (0, 0), False), (5, (1,), False)]
+ELNAME = ['p', 'X', 'q', 'z', 'W', 'V']
 EIDS = [('e', 'e0'), ('f', 'e1'), (None, 'i7')]
 _IMPL_EDGE = {}     # (label index, node indices) -> (code, Edge object kept alive so that its id stays unique)
 
@@ -87,7 +89,7 @@ def op_instances(n_graphs=3, n_hrgs=2):
         for nm in (1, 4, 0):
             ops.append(('setStartName', h, nm))
         for g in range(n_graphs):
-            for l in (2, 4, 0):
+            for l in (2, 4, 0, 6, 7):
                 ops.append(('addRule', h, l, g))
             for nm in (1, 5):
                 ops.append(('newRule', h, nm, g))
